@@ -27,7 +27,8 @@ Part "fk"  : FIXED lattice (no seed element): bases {I, B1} x spins x the 81-pos
                    class id "fsolve-zero-rotation-start" (listed); the fsolve path is decided at the rotated base.
    raised          a library call raised on a valid input
 
-`VERIF_C09_WRITE_LIST=1 ./check C09 --tier thorough` regenerates the case list (never written otherwise).
+`VERIF_C09_WRITE_LIST=1 ./check C09 --tier thorough` regenerates the case list (never written otherwise; =merge unions
+with the entries already there).  Generator mode evaluates the FK part only, without the time cap.
 """
 import os
 import time
@@ -318,11 +319,14 @@ def run(ctx):
     deadline = ctx.t0 + budget
     nfk = len(fk_blocks) * len(splib.FK_SUBGRID)
     nik = len(ik_blocks) * splib.GRID_N
+    wl = os.environ.get("VERIF_C09_WRITE_LIST")
+    generator = wl in ("1", "merge")       # generator mode: the FK part only, without a time cap
     with ctx.pool() as pool:
         w = pool.workers
-        m_fk = _run_part(ctx, pool, "work_fk", nfk, fk_blocks, deadline, w * (24 if ctx.tier == "thorough" else 6), "fk")
-        m_ik = _run_part(ctx, pool, "work_ik", nik, ik_blocks, deadline, w * (12 if ctx.tier == "thorough" else 4), "ik")
-    wl = os.environ.get("VERIF_C09_WRITE_LIST")
+        m_fk = _run_part(ctx, pool, "work_fk", nfk, fk_blocks, float("inf") if generator else deadline,
+                         w * (24 if ctx.tier == "thorough" else 6), "fk")
+        m_ik = _run_part(ctx, pool, "work_ik", nik, ik_blocks, 0.0 if generator else deadline,
+                         w * (12 if ctx.tier == "thorough" else 4), "ik")
     if wl:
         # "1": (re)write the committed list; "merge": union with the entries already there (several repaired tree
         # variants); any other value: a scratch path for experiments
